@@ -19,6 +19,7 @@ use std::time::Duration;
 
 mod keyops;
 mod storeops;
+mod faultops;
 
 /// C19 cases run one at a time: the handle counters and the last-error slot are process-global
 static SERIAL: Lazy<Mutex<[usize; 3]>> = Lazy::new(|| Mutex::new([0; 3]));
@@ -245,6 +246,7 @@ pub fn exec(case: &Value, _tag: &str) -> Value {
     if case["kind"] == "c19:child" {
         // child side of the null out-pointer probe: the call either returns or kills this process
         if case["probe"] == "logger" { return storeops::logger_child(case); }
+        if case["probe"] == "terminate" { return faultops::terminate_child(case); }
         if case["probe"] == "current_error" {
             let c = unsafe { askar_get_current_error(std::ptr::null_mut()) };
             return json!({"out": {"returned": code_name(c)}});
@@ -272,7 +274,7 @@ pub fn exec(case: &Value, _tag: &str) -> Value {
             let num = |n: &str| -> i64 { match n { "Backend" => 1, "Busy" => 2, "Duplicate" => 3, "Encryption" => 4, "Input" => 5, "NotFound" => 6, "Unexpected" => 7, "Unsupported" => 8, "Custom" => 100, _ => 0 } };
             if name == "current_error" { run.clobbered = false; run.last_seen_err = 0; }
             else if r == "Unexpected" || cbe == "Unexpected" { run.clobbered = false; run.last_seen_err = 0; }
-            else if (name == "store_close" && !op["cb"].as_bool().unwrap_or(false)) || name == "key_roundtrip" || keyops::is_key_op(name) || storeops::is_store_op(name) { run.clobbered = true; }
+            else if (name == "store_close" && !op["cb"].as_bool().unwrap_or(false)) || name == "key_roundtrip" || keyops::is_key_op(name) || storeops::is_store_op(name) || name == "terminate" { run.clobbered = true; }
             else if name == "null_probe" || ((name == "key_fetch" || name == "key_fetch_all") && o.get("cb").and_then(|c| c.get("keys")).map_or(false, |k| !k.is_null())) { run.clobbered = false; run.last_seen_err = 5; } // the bad-index probes of the harness end with an Input error
             else if !cbe.is_empty() { run.clobbered = false; run.last_seen_err = num(cbe); }
             else if (name == "fetch_all" || name == "scan_start") && r == "Unsupported" { run.last_seen_err = 8; } // the caller must be able to retrieve it (D33: the unrepaired source returned without set_last_error); a clobbered slot stays undetermined
@@ -721,7 +723,18 @@ fn step(run: &mut Run, i: usize, op: &Value, last: &mut [usize; 3]) -> Value {
                     run.set_slot(i, Slot::StrList(p));
                     jret(ret, json!({"strs": names, "count": count}))
                 }
-                Some(v) => { if live && cb_given { run.fail(i, op, format!("list_profiles:live->err:{}", code_name(v.code())), json!({})); } jret(ret, cberr(v.code())) }
+                Some(v) => {
+                    // an error on a live handle is what the Rust API reports for the same store (a backend made to fail), nothing else
+                    if live && cb_given {
+                        let twin = if run.twin_ok { run.stores.get(&h).and_then(|s| s.twin.as_ref()).map(|st| block_on(st.list_profiles())) } else { None };
+                        match twin {
+                            Some(Err(e)) if kind_name(&e) == code_name(v.code()) => {}
+                            Some(Err(e)) => run.fail(i, op, format!("list_profiles:rust:err:{}->ffi:{}", kind_name(&e), code_name(v.code())), json!({"rust": e.to_string()})),
+                            _ => run.fail(i, op, format!("list_profiles:live->err:{}", code_name(v.code())), json!({})),
+                        }
+                    }
+                    jret(ret, cberr(v.code()))
+                }
                 None => jret(ret, Value::Null),
             }
         }
@@ -1112,6 +1125,7 @@ fn step(run: &mut Run, i: usize, op: &Value, last: &mut [usize; 3]) -> Value {
         }
         n if keyops::is_key_op(n) => keyops::step_key(run, i, op),
         n if storeops::is_store_op(n) => storeops::step_store(run, i, op, last),
+        n if faultops::is_fault_op(n) => faultops::step_fault(run, i, op),
         _ => json!({"err": "BadOp"}),
     }
 }
